@@ -247,6 +247,12 @@ class Run:
         self.in_sweep = True
         try:
             self.proc.run_recovery()
+        except VerifCrash:
+            # killed at a commit of the sweep: what it committed is durable (recovery pushes its messages in one
+            # transaction per workflow) - the sweep is an event of the run, followed by the crash
+            self.in_sweep = False
+            self.emit({"e": "sweep", "s": self.proj.state()})
+            raise
         finally:
             self.in_sweep = False
         self.emit({"e": "sweep", "s": self.proj.state()})
